@@ -56,3 +56,28 @@ add("C19",
     "TLC replays the events line by line and checks P_C19_Alternate, Peers, Mesh, Deliver, Publish, Rpc and Files at each quiet line.",
     "Trusts: synctest quiescence (a step line is a quiet state); the verif-tagged read-only snapshot and queue-push hook; harness naming of messages by payload prefix. Per-step (not per-peer cumulative) RPC accounting because the hook cannot map a queue to a peer. RemoteTracer not exercised.",
     "DESIGN.md section 4 C19, section 9")
+
+add("C12",
+    "TLA+ class table + stream machine (TLC: exhaustive over an alphabet of named frames, a configuration that must fail, generator of every sequence of <= 3 frames) driving model-generated hostile-input testing of a real node; TLC judges every recorded frame",
+    "Wire.tla is the single table of what a remote peer can put on an inbound stream (5 frame kinds with 13 framing sub-kinds, 36 RPC fields / 143 classes, 13 configuration factors) with the stream machine (open/reset/eof per stream, alive) and P_C12_Alive / Isolation / Liveness. "
+    "TLC prints the table and enumerates all 16275 sequences of <= 3 named frames; the orchestrator builds all-pairs covering arrays (wide + enabling-context 'deep', per router; thorough: 3 rounds + seeded random rows, ~99% of class triples) from the printed table. "
+    "A Go driver turns every class into bytes (gogo pb.RPC, seeded garbage, broken varints, sealed PX envelopes) and writes them to a real inbound stream of a real gossipsub/floodsub/randomsub node with BasicSeqnoValidator, allowlist/regexp/limit filters, scoring, gater, test and partial-message extensions, signature policies; after each frame: marker, honest delivery probe, eval round-trip, stream state seen by the hostile peer. "
+    "A library panic kills the driver: attributed via marker + stack, the single frame is re-run alone, replay restarts after it. WireTrace evaluates the three predicates per line; reset/Recv prediction is drift only.",
+    "EXPLORATION level: inputs outside the generated class combinations and sequences are not covered; one concretisation per class; goroutine interleavings are sampled; liveness probed after synctest quiescence (honest delivery excused only when the node recorded throttling the honest peer).",
+    "DESIGN.md section 4 C12, section 6, section 9", level="exploration")
+
+add("C16",
+    "TLA+ model of peer lifecycle x inbound pipeline with Blacklist(p, api|direct) enabled in every state (TLC exhaustive, 9 must-fail configurations) + TLC-generated situations replayed on a real node + TLC trace validation ordered by tracer sequence numbers",
+    "TLC exhaustively checks the implementation-shaped model (connect notification, queue creation, stream establishment/failure, mesh/fanout, writer, stream reset, dead-peer respawn, reconnect; pipeline arrived->shouldPush->valQ->worker->async->sendQ->publish and the unsigned direct path; api/direct blacklisting and expiry at every point) against P_C16_NoInject/Refuse/Api/ApiQueue; the as-found variants (no re-check before publishMessage = D13, GRAFT without outbound stream = D6) and each removed mechanism must fail. "
+    "GenBlacklist emits every reachable situation (9 positions x api|direct x by origin|author x 6 stages); the Go driver rebuilds each on a real gossipsub node (held NewStream, gated writes, parked validation worker / gated async validator / parked event loop), with NewMapBlacklist and NewTimeCachedBlacklist behind a recording proxy, through BlacklistPeer and through Add, then probes (victim forwards, third party forwards victim-authored, publishes, GRAFT on surviving inbound stream, writer respawn, reconnect with held stream, expiry). "
+    "BlacklistTrace judges every Deliver/Send event, subscriber delivery and wire frame against the blacklist status at that event's sequence number, every stream completion while blacklisted, and the state/wire after BlacklistPeer.",
+    "Trusts: tracer callbacks for Deliver/Send/Up run on the event loop (sequence numbers order them against Add); synctest quiescence; unsigned messages are published in the loop iteration that ran shouldPush (one instant). Not examined: IWANT retransmission from the message cache of messages accepted before the blacklisting; api blacklisting racing a message in front of the loop (select order). Known finding D6 (mesh entry of a peer without outbound stream).",
+    "DESIGN.md section 4 C16, section 9")
+
+add("C20",
+    "TLA+ model of BasicSeqnoValidator at RW-lock/store-access grain (TLC exhaustive, non-vacuity config without the re-check must fail) + every TLC-generated interleaving of store accesses forced on the real public validator through a scheduling PeerMetadataStore + TLC monitor/trace validation; in-node composition with the seen cache",
+    "TLC exhaustively checks (textbook RW lock and sync.RWMutex semantics, 2 authors, seqnos {0,1,2,max}, 3 concurrent calls incl. duplicates; 4 calls at thorough) that accepted seqnos strictly increase, the stored nonce is the highest accepted and never decreases, Accept iff Put, replays are Ignored; the config with the re-check under the write lock removed must violate it. "
+    "Real code: GenSeqno emits every interleaving of the controllable steps (call start, first Get, second Get, Put; hidden lock steps run to quiescence); the Go driver forces each on pubsub.NewBasicSeqnoValidator with a store whose Get/Put park on channels, reading 'parked on the mutex' from a stop-the-world goroutine dump (no timing); MonSpec evaluates the predicates on the real order of Put/verdicts, TraceSpec validates conformance (Get values, Put values, verdicts, parking positions). "
+    "Wrong-length seqnos (0,1..7,8,9,16) are called inside recover (P_C20_Total). In-node: real gossipsub/floodsub nodes with WithDefaultValidator (async/inline, with/without topic validator), SeenMessagesTTL 1s, 4 workers, fake peers that author and replay signed messages across seen-cache expiry and concurrent bursts; SeqnoNodeTrace judges not delivered / not forwarded / not penalised.",
+    "Trusts: the metadata store does not fail (errors not injected); runtime.Stack wait-reason strings of the pinned toolchain (fallback to timing is reported and makes 'wedged' inconclusive); sync.RWMutex policy as modelled (a different policy shows as divergence, never as a wrong verdict). Conformance drift alone is a NOTE; coverage obligations are counted on conforming runs.",
+    "DESIGN.md section 4 C20, section 9")
